@@ -78,6 +78,8 @@ func realMain() (code int) {
 		return setup()
 	case "--selftest":
 		return selftest(seed)
+	case "--genwitness":
+		return genWitness()
 	case "--list":
 		ids := make([]string, 0, len(checks))
 		for k := range checks {
